@@ -21,7 +21,8 @@ RULE = ('histories of sets/gets/incrs/touches/pops with skewed read patterns ove
 DISTINCT = ('evict_cells',)
 REQUIRED = ('non_ascii_text_values', 'calls_judged', 'evicting_writes_lrs', 'evicting_writes_lru', 'evicting_writes_lfu', 'writes_below_limit',
             'policy_none_histories', 'cull_limit_zero_histories', 'explicit_culls_evicting', 'fanout_histories',
-            'expired_and_policy_mixed', 'container_doors_checked')
+            'expired_and_policy_mixed', 'container_doors_checked', 'big_items_expiring_at_the_limit',
+            'evictions_bounded_after_expired_phase')
 ASSUMPTIONS = ('LRU key = last set/add/incr/get-hit; LRS key = last set/add/incr; LFU key = reads since last store '
                '(an order is accepted if it is right with or without counting incr as a read)',
                'volume upper bound uses the page count before/after the call plus 6 pages of slack')
@@ -78,11 +79,13 @@ class Monitor:
             raise Mismatch('policy none but %s evicted %r' % (op, [it.key for it in evicted][:5]), drv.witness())
         post = self.measure(drv)
         by_shard = {}
+        unattributed = 0          # bytes of items written and evicted by this very call (shard unknown): they did count
         for it in evicted:
             if self.kind == 'fanout' and it.id not in drv.shard_of:
                 # written and evicted by the same call: its shard was never observed, so it cannot be
                 # compared with the survivors of one shard (a lone big item legitimately evicts itself)
                 self.res.count('unattributed_self_evictions')
+                unattributed += drv_row_size(drv, it)
                 continue
             by_shard.setdefault(drv.shard_of.get(it.id, 0), []).append(it)
         for sh, items in by_shard.items():
@@ -96,10 +99,22 @@ class Monitor:
             pc0, ps, sz0 = self.pre[sh]
             pc1, _, sz1 = post[sh]
             new_bytes = max(0, sz1 - sz0) + sum(drv_row_size(drv, it) for it in items)
-            upper = (max(pc0, pc1) + 6) * ps + sz0 + new_bytes + 35000
+            upper = (max(pc0, pc1) + 6) * ps + sz0 + new_bytes + unattributed + 35000
             if upper < self.limit:
                 raise Mismatch('%s evicted %d item(s) while the volume cannot have exceeded %d (limit %d)' % (
                     op, len(items), upper, self.limit), drv.witness())
+            # (2b) ... and it must STILL have been reached once the expired items of this very call were gone: the
+            # size counter after the call plus what the evicted unexpired items occupied is the size part of the
+            # volume at the moment the (last) policy batch was decided (seeded/C09-11: a 'full' flag computed before
+            # the expired phase)
+            upper2 = (max(pc0, pc1) + 6) * ps + sz1 + sum(drv_row_size(drv, it) for it in items) + unattributed + 35000
+            self.res.count('evictions_bounded_after_expired_phase')
+            if sz1 < sz0:
+                self.res.count('evictions_in_calls_that_shrank_the_size_counter')
+            if upper2 < self.limit:
+                raise Mismatch('%s evicted %d unexpired item(s) although, once the expired items it removed were gone, the '
+                               'volume cannot have reached the limit any more (at most %d, limit %d)' % (
+                                   op, len(items), upper2, self.limit), drv.witness())
             # (3) order: nothing evicted is newer/hotter than a survivor of the same shard
             survivors = [it for it in mdl.items if drv.shard_of.get(it.id, 0) == sh and it not in evicted
                          and it.id in {observe.row_ident(r['key'], r['raw']) for r in rows}]
@@ -176,6 +191,13 @@ def history(dc, sc, res, rng, kind, cfg, label):
                 kw = {}
                 if rng.random() < 0.15:
                     kw['expire'] = gen.pick(rng, [gen.ttl_exact(0.5), gen.ttl_exact(3.5), -1.5])
+                if rng.random() < 0.07:
+                    # an item far bigger than the rest that expires soon: when it is culled as expired the volume falls
+                    # well below the limit in the middle of a write that found the cache full (seeded/C09-11)
+                    call('set', k, 'G' * rng.randrange(90000, 260000), expire=gen.ttl_exact(0.5))
+                    clock.advance(1.0)
+                    res.count('big_items_expiring_at_the_limit')
+                    continue
                 call('set', k, val(), **kw)
             elif r < 0.5:
                 call('add', gen.pick(rng, keys), val())
